@@ -51,7 +51,7 @@ THEOREMS = [
     "antex_file_roundtrip_with_comments", "frequency_section_spec", "frequency_pattern_shape", "grid_spec",
     "valid_from_until_spec", "calendar", "unique_keys", "duplicate_validity_refused", "pi_bracket",
     "c15_azi_accumulates_refuted", "c15_azi_strings_refuted", "c15_seconds_as_days_refuted",
-    "c15_grid_count_float_refuted", "c15_sat_without_valid_from_refuted",
+    "c15_grid_count_float_refuted", "c15_sat_without_valid_from_refuted", "c15_valid_until_now_refuted",
 ]
 
 REQ = "From Verif Require Import Lib.Dyadic Lib.Text Model.C15_Antex Model.C15_Check."
@@ -67,6 +67,9 @@ QUIRKS = {
     16: ("c15_sat_without_valid_from",
          "AntexParser.save_correction fails with UnboundLocalError ('dt') for a satellite antenna block without the optional "
          "VALID FROM record"),
+    32: ("c15_valid_until_now",
+         "AntexParser stamps a satellite validity period without VALID UNTIL with the time of parsing instead of "
+         "datetime.max (still valid) - fixed in /repo 704e441, so this is a violation if it reappears"),
     8: ("c15_grid_count_float",
         "AntexParser builds the zenith/azimuth grid with numpy.arange on a floating-point step: for steps like 0.1 the grid has one point more than the pattern has columns"),
 }
@@ -488,7 +491,7 @@ def file_case(ctx, lines, name):
 
 # ============================================================================= the run
 def mask_names(k):
-    return [QUIRKS[b][0] for b in (1, 2, 4, 8, 16) if k & b]
+    return [QUIRKS[b][0] for b in (1, 2, 4, 8, 16, 32) if k & b]
 
 
 def run(ctx):
@@ -554,7 +557,7 @@ def run(ctx):
             if v == 0:
                 continue
             if v >= 16:
-                for b in (1, 2, 4, 8, 16):
+                for b in (1, 2, 4, 8, 16, 32):
                     if (v - 16) & b:
                         ctx.count("quirk:" + QUIRKS[b][0])
                         ctx.finding(QUIRKS[b][0], QUIRKS[b][1], dict(rep, verdict=v, quirks=mask_names(v - 16)))
@@ -584,7 +587,7 @@ def run(ctx):
         "a satellite block without VALID FROM is valid from datetime.min (at most one such block per PRN)",
         "receiver antenna types are unique in a file (the parser keys receivers by type only)",
         "correction values are separated by at least one blank (at most 7 characters in an F8.2 field)",
-        "valid_until absent = the time of parsing (checked to lie between start and end of the parse)",
+        "valid_until absent = datetime.max (still valid), compared exactly",
     ]
     return ctx.finish(
         level="proof",
